@@ -1,1 +1,762 @@
-//! reference model `ecma48` (filled in by the property that needs it)
+//! Independent byte-level control-sequence parser and operation decoder.
+//!
+//! Written from ECMA-48 (5th ed., 5.4 control sequences, 5.6 control strings), the DEC
+//! VT500 parser state diagram (vt100.net/emu/dec_ansi_parser) and xterm ctlseqs; no library
+//! code is used. The input is interpreted as UTF-8 (xterm in UTF-8 mode): C1 controls are
+//! recognised as the code points U+0080..U+009F and as their 7-bit `ESC Fe` forms.
+//!
+//! Layer 1, [parse] / [Parser]: bytes -> [Token]s (printable characters, C0 controls, escape
+//! sequences, control sequences with parameters / ':' sub-parameters / private markers /
+//! intermediates, OSC / DCS / SOS / PM / APC strings with their terminator).
+//! Layer 2, [decode_ops]: tokens -> abstract operations [Op] with VT defaults applied
+//! (a missing or zero count means 1, missing CUP coordinates mean 1, ...).
+//! The SGR interpreter lives in [crate::model::sgr] and is re-exported here.
+pub use crate::model::sgr::{apply as sgr_apply, Colour, Note as SgrNote, Param, Rendition, Underline};
+
+/// How a control string ended.
+#[derive(Debug, Clone, Copy, PartialEq, Eq, Hash)]
+pub enum Term {
+    /// String Terminator: `ESC \` (or U+009C)
+    St,
+    /// BEL (xterm accepts it for OSC only)
+    Bel,
+    /// CAN, SUB, or an ESC that starts another sequence: the string is cancelled
+    Aborted,
+}
+
+#[derive(Debug, Clone, PartialEq, Eq, Hash)]
+pub enum Token {
+    /// graphic character (GL, or any non-control UTF-8 scalar)
+    Print(char),
+    /// C0 control (0x00..=0x1f except ESC) or DEL, executed immediately
+    C0(u8),
+    /// escape sequence `ESC I.. F` that does not introduce a longer construct
+    /// (`ESC 7`, `ESC 8`, `ESC c`, `ESC ( B`, C1 controls without a body such as `ESC M`)
+    Esc { inter: Vec<u8>, fin: u8 },
+    /// control sequence `CSI [marker] P.. I.. F`; `marker` is one of `< = > ?`
+    Csi { marker: Option<u8>, params: Vec<Param>, inter: Vec<u8>, fin: u8 },
+    /// device control string: header like a control sequence, then data
+    Dcs { marker: Option<u8>, params: Vec<Param>, inter: Vec<u8>, fin: u8, data: Vec<u8>, term: Term },
+    /// operating system command
+    Osc { data: Vec<u8>, term: Term },
+    /// SOS (`X`), PM (`^`) or APC (`_`) string
+    Str { kind: u8, data: Vec<u8>, term: Term },
+    /// bytes that are not a well formed construct: bad UTF-8, a control sequence that breaks
+    /// the ECMA-48 grammar (ignored by a VT), a sequence cancelled by CAN/SUB/ESC, or a
+    /// sequence still open at the end of the input
+    Invalid { bytes: Vec<u8>, why: &'static str },
+}
+
+#[derive(Debug, Clone, Copy, PartialEq, Eq)]
+enum St {
+    Ground,
+    Utf8,
+    Esc,
+    Csi,
+    DcsHead,
+    DcsData,
+    Osc,
+    Str,
+}
+
+/// Incremental parser; feed any chunking of the stream, then call [Parser::finish].
+pub struct Parser {
+    st: St,
+    /// bytes of the construct being parsed (for diagnostics)
+    raw: Vec<u8>,
+    tokens: Vec<(Token, usize)>,
+    offset: usize,
+    // utf-8
+    need: u8,
+    cp: u32,
+    // escape / control sequence header
+    inter: Vec<u8>,
+    marker: Option<u8>,
+    params: Vec<Param>,
+    cur: Param,
+    num: Option<u64>,
+    seen_param: bool,
+    phase: u8, // 0 = entry, 1 = parameters, 2 = intermediates
+    ignore: bool,
+    fin: u8,
+    // strings
+    data: Vec<u8>,
+    kind: u8,
+    esc_pending: bool,
+}
+
+impl Default for Parser {
+    fn default() -> Self {
+        Self::new()
+    }
+}
+
+impl Parser {
+    pub fn new() -> Self {
+        Parser {
+            st: St::Ground,
+            raw: vec![],
+            tokens: vec![],
+            offset: 0,
+            need: 0,
+            cp: 0,
+            inter: vec![],
+            marker: None,
+            params: vec![],
+            cur: vec![],
+            num: None,
+            seen_param: false,
+            phase: 0,
+            ignore: false,
+            fin: 0,
+            data: vec![],
+            kind: 0,
+            esc_pending: false,
+        }
+    }
+
+    pub fn feed(&mut self, bytes: &[u8]) {
+        for b in bytes {
+            self.byte(*b);
+            self.offset += 1;
+        }
+    }
+
+    /// Tokens with the offset one past their last byte.
+    pub fn finish_spans(mut self) -> Vec<(Token, usize)> {
+        if self.st != St::Ground {
+            let bytes = std::mem::take(&mut self.raw);
+            self.emit(Token::Invalid { bytes, why: "unterminated at end of input" });
+        }
+        self.tokens
+    }
+
+    pub fn finish(self) -> Vec<Token> {
+        self.finish_spans().into_iter().map(|(t, _)| t).collect()
+    }
+
+    /// True when no construct is open (every byte fed so far belongs to a finished token).
+    pub fn at_ground(&self) -> bool {
+        self.st == St::Ground
+    }
+
+    fn emit(&mut self, t: Token) {
+        self.tokens.push((t, self.offset + 1));
+    }
+
+    fn ground(&mut self) {
+        self.st = St::Ground;
+        self.raw.clear();
+    }
+
+    fn invalid(&mut self, why: &'static str) {
+        let bytes = std::mem::take(&mut self.raw);
+        self.emit(Token::Invalid { bytes, why });
+        self.st = St::Ground;
+    }
+
+    fn start_header(&mut self, st: St) {
+        self.st = st;
+        self.inter.clear();
+        self.marker = None;
+        self.params.clear();
+        self.cur.clear();
+        self.num = None;
+        self.seen_param = false;
+        self.phase = 0;
+        self.ignore = false;
+    }
+
+    fn start_string(&mut self, st: St, kind: u8) {
+        self.st = st;
+        self.kind = kind;
+        self.data.clear();
+        self.esc_pending = false;
+    }
+
+    fn byte(&mut self, b: u8) {
+        match self.st {
+            St::Ground => self.ground_byte(b),
+            St::Utf8 => self.utf8_byte(b),
+            St::Esc => self.esc_byte(b),
+            St::Csi | St::DcsHead => self.header_byte(b),
+            St::DcsData | St::Osc | St::Str => self.string_byte(b),
+        }
+    }
+
+    fn ground_byte(&mut self, b: u8) {
+        match b {
+            0x1b => {
+                self.raw.clear();
+                self.raw.push(b);
+                self.inter.clear();
+                self.st = St::Esc;
+            }
+            0x00..=0x1f | 0x7f => self.emit(Token::C0(b)),
+            0x20..=0x7e => self.emit(Token::Print(b as char)),
+            0xc2..=0xdf => self.utf8_start(b, 1, (b & 0x1f) as u32),
+            0xe0..=0xef => self.utf8_start(b, 2, (b & 0x0f) as u32),
+            0xf0..=0xf4 => self.utf8_start(b, 3, (b & 0x07) as u32),
+            _ => {
+                self.raw.clear();
+                self.raw.push(b);
+                self.invalid("invalid UTF-8 lead byte");
+            }
+        }
+    }
+
+    fn utf8_start(&mut self, b: u8, need: u8, cp: u32) {
+        self.raw.clear();
+        self.raw.push(b);
+        self.need = need;
+        self.cp = cp;
+        self.st = St::Utf8;
+    }
+
+    fn utf8_byte(&mut self, b: u8) {
+        if b & 0xc0 != 0x80 {
+            self.invalid("truncated UTF-8 sequence");
+            self.ground_byte(b);
+            return;
+        }
+        self.raw.push(b);
+        self.cp = self.cp << 6 | (b & 0x3f) as u32;
+        self.need -= 1;
+        if self.need > 0 {
+            return;
+        }
+        let min = match self.raw.len() {
+            2 => 0x80,
+            3 => 0x800,
+            _ => 0x10000,
+        };
+        match char::from_u32(self.cp) {
+            Some(c) if self.cp >= min => {
+                if (0x80..=0x9f).contains(&self.cp) {
+                    // C1 control: same meaning as ESC Fe
+                    self.inter.clear();
+                    self.st = St::Esc;
+                    self.esc_byte(self.cp as u8 - 0x40);
+                } else {
+                    self.emit(Token::Print(c));
+                    self.ground();
+                }
+            }
+            _ => self.invalid("overlong, surrogate or out of range UTF-8"),
+        }
+    }
+
+    fn esc_byte(&mut self, b: u8) {
+        self.raw.push(b);
+        match b {
+            0x18 | 0x1a => self.invalid("cancelled by CAN/SUB"),
+            0x1b => {
+                self.raw.pop();
+                self.invalid("interrupted by ESC");
+                self.ground_byte(b);
+            }
+            0x00..=0x1f => {
+                self.raw.pop();
+                self.emit(Token::C0(b));
+            }
+            0x7f => {
+                self.raw.pop();
+            }
+            0x20..=0x2f => self.inter.push(b),
+            0x30..=0x7e => {
+                if self.inter.is_empty() {
+                    match b {
+                        b'[' => return self.start_header(St::Csi),
+                        b'P' => return self.start_header(St::DcsHead),
+                        b']' => return self.start_string(St::Osc, b']'),
+                        b'X' | b'^' | b'_' => return self.start_string(St::Str, b),
+                        _ => {}
+                    }
+                }
+                let inter = std::mem::take(&mut self.inter);
+                self.emit(Token::Esc { inter, fin: b });
+                self.ground();
+            }
+            _ => self.invalid("non-ASCII byte inside an escape sequence"),
+        }
+    }
+
+    fn push_num(&mut self) {
+        let n = self.num.take();
+        self.cur.push(n);
+    }
+
+    fn header_byte(&mut self, b: u8) {
+        self.raw.push(b);
+        match b {
+            0x18 | 0x1a => self.invalid("cancelled by CAN/SUB"),
+            0x1b => {
+                self.raw.pop();
+                self.invalid("interrupted by ESC");
+                self.ground_byte(b);
+            }
+            0x00..=0x1f => {
+                self.raw.pop();
+                if self.st == St::Csi {
+                    self.emit(Token::C0(b)); // executed in the middle of a control sequence
+                }
+            }
+            0x7f => {
+                self.raw.pop();
+            }
+            b'0'..=b'9' => {
+                if self.phase == 2 {
+                    self.ignore = true;
+                } else {
+                    self.phase = 1;
+                    self.seen_param = true;
+                    let d = (b - b'0') as u64;
+                    self.num = Some(self.num.unwrap_or(0).saturating_mul(10).saturating_add(d));
+                }
+            }
+            b':' | b';' => {
+                if self.phase == 2 {
+                    self.ignore = true;
+                } else {
+                    self.phase = 1;
+                    self.seen_param = true;
+                    self.push_num();
+                    if b == b';' {
+                        let p = std::mem::take(&mut self.cur);
+                        self.params.push(p);
+                    }
+                }
+            }
+            0x3c..=0x3f => {
+                if self.phase == 0 {
+                    self.marker = Some(b);
+                    self.phase = 1;
+                } else {
+                    self.ignore = true;
+                }
+            }
+            0x20..=0x2f => {
+                self.phase = 2;
+                self.inter.push(b);
+            }
+            0x40..=0x7e => {
+                if self.seen_param {
+                    self.push_num();
+                    let p = std::mem::take(&mut self.cur);
+                    self.params.push(p);
+                }
+                self.fin = b;
+                if self.st == St::Csi {
+                    if self.ignore {
+                        return self.invalid("control sequence violating the ECMA-48 grammar");
+                    }
+                    let t = Token::Csi {
+                        marker: self.marker,
+                        params: std::mem::take(&mut self.params),
+                        inter: std::mem::take(&mut self.inter),
+                        fin: b,
+                    };
+                    self.emit(t);
+                    self.ground();
+                } else {
+                    self.start_string(St::DcsData, b'P');
+                }
+            }
+            _ => self.ignore = true,
+        }
+    }
+
+    fn end_string(&mut self, term: Term) {
+        let data = std::mem::take(&mut self.data);
+        let t = match self.st {
+            St::Osc => Token::Osc { data, term },
+            St::Str => Token::Str { kind: self.kind, data, term },
+            _ => {
+                if self.ignore {
+                    return self.invalid("device control string with a malformed header");
+                }
+                Token::Dcs {
+                    marker: self.marker,
+                    params: std::mem::take(&mut self.params),
+                    inter: std::mem::take(&mut self.inter),
+                    fin: self.fin,
+                    data,
+                    term,
+                }
+            }
+        };
+        self.emit(t);
+        self.ground();
+    }
+
+    fn string_byte(&mut self, b: u8) {
+        if self.esc_pending {
+            self.esc_pending = false;
+            if b == b'\\' {
+                self.raw.push(b);
+                return self.end_string(Term::St);
+            }
+            // ESC starts a new sequence: the string is cancelled
+            self.raw.pop();
+            self.offset -= 1;
+            self.end_string(Term::Aborted);
+            self.offset += 1;
+            self.raw.clear();
+            self.raw.push(0x1b);
+            self.inter.clear();
+            self.st = St::Esc;
+            return self.esc_byte(b);
+        }
+        self.raw.push(b);
+        match b {
+            0x1b => self.esc_pending = true,
+            0x18 | 0x1a => self.end_string(Term::Aborted),
+            0x07 if self.st == St::Osc => self.end_string(Term::Bel),
+            // C0 inside OSC is ignored (VT500 diagram); DCS passes it through; SOS/PM/APC keep it
+            0x00..=0x1f if self.st == St::Osc => {}
+            _ => self.data.push(b),
+        }
+    }
+}
+
+/// Parse a complete byte stream.
+pub fn parse(bytes: &[u8]) -> Vec<Token> {
+    let mut p = Parser::new();
+    p.feed(bytes);
+    p.finish()
+}
+
+// ------------------------------------------------------------------------------------------
+// operations
+// ------------------------------------------------------------------------------------------
+
+#[derive(Debug, Clone, PartialEq, Eq, Hash)]
+pub enum Op {
+    Print(char),
+    C0(u8),
+    /// CUP / HVP, 1-based, defaults applied
+    Cup { row: u64, col: u64 },
+    Cuu(u64),
+    Cud(u64),
+    Cuf(u64),
+    Cub(u64),
+    /// ED with selector (0 = to end, 1 = to start, 2 = all, 3 = scrollback)
+    Ed(u64),
+    /// EL with selector (0 = to the right, 1 = to the left, 2 = whole line)
+    El(u64),
+    Ech(u64),
+    Su(u64),
+    Sd(u64),
+    /// DECSTBM, 1-based; `bottom == None` means the last line of the screen
+    Decstbm { top: u64, bottom: Option<u64> },
+    /// DECSET / DECRST / DECRQM: one operation per listed mode
+    DecSet(u64),
+    DecRst(u64),
+    Decrqm(u64),
+    /// DSR with its selector (6 = report cursor position)
+    Dsr(u64),
+    Decsc,
+    Decrc,
+    Ris,
+    Sgr(Vec<Param>),
+    /// DECRQSS with the setting selector (e.g. `m`)
+    Decrqss(Vec<u8>),
+    /// XTGETTCAP with the hex-decoded capability names
+    XtGetTcap(Vec<Vec<u8>>),
+    /// OSC 0 / 1 / 2
+    OscTitle { ps: u64, text: Vec<u8> },
+    /// OSC 4 (index = Some) and OSC 10.. dynamic colours (index = None); spec is `?` for a query
+    OscColour { ps: u64, index: Option<u64>, spec: Vec<u8> },
+    Da1,
+    /// kitty keyboard protocol `CSI = flags ; mode u` (mode defaults to 1 = set)
+    KittyKeyboardSet { flags: u64, mode: u64 },
+    /// anything this decoder has no name for, or a malformed / cancelled construct
+    Other(Token),
+}
+
+fn main(p: &Param) -> Option<u64> {
+    p.first().copied().flatten()
+}
+
+fn plain(params: &[Param]) -> bool {
+    params.iter().all(|p| p.len() == 1)
+}
+
+fn count(params: &[Param], i: usize) -> u64 {
+    match params.get(i).and_then(main) {
+        None | Some(0) => 1,
+        Some(n) => n,
+    }
+}
+
+fn selector(params: &[Param]) -> u64 {
+    params.first().and_then(main).unwrap_or(0)
+}
+
+fn hex_decode(s: &[u8]) -> Option<Vec<u8>> {
+    if s.len() % 2 != 0 {
+        return None;
+    }
+    s.chunks(2)
+        .map(|c| {
+            let h = (c[0] as char).to_digit(16)?;
+            let l = (c[1] as char).to_digit(16)?;
+            Some((h * 16 + l) as u8)
+        })
+        .collect()
+}
+
+fn number(s: &[u8]) -> Option<u64> {
+    if s.is_empty() || s.len() > 18 || !s.iter().all(|b| b.is_ascii_digit()) {
+        return None;
+    }
+    std::str::from_utf8(s).ok()?.parse().ok()
+}
+
+fn csi_ops(marker: Option<u8>, params: &[Param], inter: &[u8], fin: u8, out: &mut Vec<Op>) -> bool {
+    if !plain(params) && fin != b'm' {
+        return false;
+    }
+    let n = params.len();
+    match (marker, inter, fin) {
+        (None, b"", b'H') | (None, b"", b'f') if n <= 2 => {
+            out.push(Op::Cup { row: count(params, 0), col: count(params, 1) })
+        }
+        (None, b"", b'A') if n <= 1 => out.push(Op::Cuu(count(params, 0))),
+        (None, b"", b'B') if n <= 1 => out.push(Op::Cud(count(params, 0))),
+        (None, b"", b'C') if n <= 1 => out.push(Op::Cuf(count(params, 0))),
+        (None, b"", b'D') if n <= 1 => out.push(Op::Cub(count(params, 0))),
+        (None, b"", b'J') if n <= 1 => out.push(Op::Ed(selector(params))),
+        (None, b"", b'K') if n <= 1 => out.push(Op::El(selector(params))),
+        (None, b"", b'X') if n <= 1 => out.push(Op::Ech(count(params, 0))),
+        (None, b"", b'S') if n <= 1 => out.push(Op::Su(count(params, 0))),
+        (None, b"", b'T') if n <= 1 => out.push(Op::Sd(count(params, 0))),
+        (None, b"", b'r') if n <= 2 => out.push(Op::Decstbm {
+            top: count(params, 0),
+            bottom: match params.get(1).and_then(main) {
+                None | Some(0) => None,
+                Some(b) => Some(b),
+            },
+        }),
+        (Some(b'?'), b"", b'h') if n >= 1 => out.extend(params.iter().map(|p| Op::DecSet(main(p).unwrap_or(0)))),
+        (Some(b'?'), b"", b'l') if n >= 1 => out.extend(params.iter().map(|p| Op::DecRst(main(p).unwrap_or(0)))),
+        (Some(b'?'), b"$", b'p') if n == 1 => out.push(Op::Decrqm(selector(params))),
+        (None, b"", b'n') if n <= 1 => out.push(Op::Dsr(selector(params))),
+        (None, b"", b'c') if n <= 1 && selector(params) == 0 => out.push(Op::Da1),
+        (Some(b'='), b"", b'u') if n <= 2 => out.push(Op::KittyKeyboardSet {
+            flags: selector(params),
+            mode: count(params, 1),
+        }),
+        (None, b"", b'm') => out.push(Op::Sgr(params.to_vec())),
+        _ => return false,
+    }
+    true
+}
+
+fn osc_ops(data: &[u8], out: &mut Vec<Op>) -> bool {
+    let (ps, rest) = match data.iter().position(|b| *b == b';') {
+        Some(i) => (&data[..i], Some(&data[i + 1..])),
+        None => (data, None),
+    };
+    let (Some(ps), Some(rest)) = (number(ps), rest) else {
+        return false;
+    };
+    match ps {
+        0..=2 => out.push(Op::OscTitle { ps, text: rest.to_vec() }),
+        4 => {
+            let parts: Vec<&[u8]> = rest.split(|b| *b == b';').collect();
+            if parts.len() % 2 != 0 {
+                return false;
+            }
+            let mut ops = vec![];
+            for pair in parts.chunks(2) {
+                match number(pair[0]) {
+                    Some(index) => ops.push(Op::OscColour { ps: 4, index: Some(index), spec: pair[1].to_vec() }),
+                    None => return false,
+                }
+            }
+            out.extend(ops);
+        }
+        10..=19 => {
+            for (i, spec) in rest.split(|b| *b == b';').enumerate() {
+                out.push(Op::OscColour { ps: ps + i as u64, index: None, spec: spec.to_vec() });
+            }
+        }
+        _ => return false,
+    }
+    true
+}
+
+/// Map tokens to operations.
+pub fn decode_ops(tokens: &[Token]) -> Vec<Op> {
+    let mut out = Vec::with_capacity(tokens.len());
+    for t in tokens {
+        let known = match t {
+            Token::Print(c) => {
+                out.push(Op::Print(*c));
+                true
+            }
+            Token::C0(b) => {
+                out.push(Op::C0(*b));
+                true
+            }
+            Token::Esc { inter, fin } if inter.is_empty() => match fin {
+                b'7' => {
+                    out.push(Op::Decsc);
+                    true
+                }
+                b'8' => {
+                    out.push(Op::Decrc);
+                    true
+                }
+                b'c' => {
+                    out.push(Op::Ris);
+                    true
+                }
+                _ => false,
+            },
+            Token::Csi { marker, params, inter, fin } => csi_ops(*marker, params, inter, *fin, &mut out),
+            Token::Dcs { marker: None, params, inter, fin: b'q', data, term: Term::St } if params.is_empty() => {
+                match inter.as_slice() {
+                    b"$" => {
+                        out.push(Op::Decrqss(data.clone()));
+                        true
+                    }
+                    b"+" => {
+                        let names: Option<Vec<Vec<u8>>> = if data.is_empty() {
+                            Some(vec![])
+                        } else {
+                            data.split(|b| *b == b';').map(hex_decode).collect()
+                        };
+                        match names {
+                            Some(names) => {
+                                out.push(Op::XtGetTcap(names));
+                                true
+                            }
+                            None => false,
+                        }
+                    }
+                    _ => false,
+                }
+            }
+            Token::Osc { data, term: Term::St | Term::Bel } => osc_ops(data, &mut out),
+            _ => false,
+        };
+        if !known {
+            out.push(Op::Other(t.clone()));
+        }
+    }
+    out
+}
+
+/// Parse and decode in one go.
+pub fn interpret(bytes: &[u8]) -> Vec<Op> {
+    decode_ops(&parse(bytes))
+}
+
+/// X11 colour specification (`XParseColor`) to 8 bits per channel, when it denotes such a
+/// colour exactly: `#rgb`, `#rrggbb`, `#rrrgggbbb`, `#rrrrggggbbbb` (left aligned) and
+/// `rgb:h/h/h` with 1..=4 hex digits per channel (scaled).
+pub fn xparse_colour(spec: &[u8]) -> Option<(u8, u8, u8)> {
+    let s = std::str::from_utf8(spec).ok()?;
+    let hex = |h: &str| -> Option<u32> {
+        if h.is_empty() || h.len() > 4 || !h.bytes().all(|b| b.is_ascii_hexdigit()) {
+            return None;
+        }
+        u32::from_str_radix(h, 16).ok()
+    };
+    if let Some(h) = s.strip_prefix('#') {
+        if !h.is_ascii() || h.len() % 3 != 0 || h.is_empty() || h.len() > 12 {
+            return None;
+        }
+        let n = h.len() / 3;
+        let ch = |i: usize| -> Option<u8> {
+            let v = hex(&h[i * n..(i + 1) * n])? << (4 * (4 - n)); // left aligned in 16 bits
+            if v & 0xff != 0 {
+                return None;
+            }
+            Some((v >> 8) as u8)
+        };
+        return Some((ch(0)?, ch(1)?, ch(2)?));
+    }
+    let body = s.strip_prefix("rgb:")?;
+    let parts: Vec<&str> = body.split('/').collect();
+    if parts.len() != 3 {
+        return None;
+    }
+    let ch = |h: &str| -> Option<u8> {
+        let max = (1u32 << (4 * h.len() as u32)) - 1;
+        let v = hex(h)? * 255;
+        if v % max != 0 {
+            return None;
+        }
+        Some((v / max) as u8)
+    };
+    Some((ch(parts[0])?, ch(parts[1])?, ch(parts[2])?))
+}
+
+#[cfg(test)]
+mod tests {
+    use super::*;
+
+    #[test]
+    fn tokens() {
+        let t = parse(b"a\x1b[1;2H\x1b[?1049h\x1b[4:3;38:2::1:2:3m\x1b]0;hi\x07\x1bP$qm\x1b\\\x1b7\xc3\xa9");
+        assert_eq!(t.len(), 8, "{:?}", t);
+        assert_eq!(t[0], Token::Print('a'));
+        assert_eq!(
+            t[1],
+            Token::Csi { marker: None, params: vec![vec![Some(1)], vec![Some(2)]], inter: vec![], fin: b'H' }
+        );
+        assert_eq!(
+            t[3],
+            Token::Csi {
+                marker: None,
+                params: vec![vec![Some(4), Some(3)], vec![Some(38), Some(2), None, Some(1), Some(2), Some(3)]],
+                inter: vec![],
+                fin: b'm'
+            }
+        );
+        assert_eq!(t[4], Token::Osc { data: b"0;hi".to_vec(), term: Term::Bel });
+        assert_eq!(t[7], Token::Print('é'));
+        let ops = decode_ops(&t);
+        assert_eq!(ops[1], Op::Cup { row: 1, col: 2 });
+        assert_eq!(ops[2], Op::DecSet(1049));
+        assert_eq!(ops[5], Op::Decrqss(b"m".to_vec()));
+        assert_eq!(ops[6], Op::Decsc);
+    }
+
+    #[test]
+    fn defaults_and_errors() {
+        assert_eq!(interpret(b"\x1b[H\x1b[0X\x1b[X\x1b[;5H"), vec![
+            Op::Cup { row: 1, col: 1 },
+            Op::Ech(1),
+            Op::Ech(1),
+            Op::Cup { row: 1, col: 5 }
+        ]);
+        assert!(matches!(parse(b"\x1b[-5D")[0], Token::Invalid { .. }));
+        assert!(matches!(parse(b"\x1b]0;x")[0], Token::Invalid { .. }));
+        // ESC inside a string cancels it and starts a new sequence
+        let t = parse(b"\x1b]0;x\x1b[2J");
+        assert_eq!(t[0], Token::Osc { data: b"0;x".to_vec(), term: Term::Aborted });
+        assert_eq!(decode_ops(&t)[1], Op::Ed(2));
+        assert_eq!(interpret(b"\x1bP+q544e;436f\x1b\\"), vec![Op::XtGetTcap(vec![b"TN".to_vec(), b"Co".to_vec()])]);
+        assert_eq!(interpret(b"\x1b[=5u"), vec![Op::KittyKeyboardSet { flags: 5, mode: 1 }]);
+        // chunked feeding gives the same tokens
+        let all = b"\x1b[38;2;1;2;3m\xe2\x82\xac\x1b]4;1;#ff0000\x1b\\";
+        let mut p = Parser::new();
+        for b in all.iter() {
+            p.feed(&[*b]);
+        }
+        assert_eq!(p.finish(), parse(all));
+    }
+
+    #[test]
+    fn xcolour() {
+        assert_eq!(xparse_colour(b"#ff0080"), Some((255, 0, 128)));
+        assert_eq!(xparse_colour(b"rgb:ff/00/80"), Some((255, 0, 128)));
+        assert_eq!(xparse_colour(b"rgb:ffff/0000/8080"), Some((255, 0, 128)));
+        assert_eq!(xparse_colour(b"#f08"), Some((0xf0, 0, 0x80)));
+        assert_eq!(xparse_colour(b"red"), None);
+    }
+}
